@@ -62,7 +62,7 @@ func realLikeLiteral(s string) (string, error) {
 	if err != nil {
 		return "", err
 	}
-	const pre = "like(samples.string, "
+	const pre = "like(string, "
 	i := strings.Index(q, pre)
 	j := strings.LastIndex(q, ")) == (1))")
 	if i < 0 || j < i {
